@@ -112,6 +112,9 @@ type Fn struct {
 	ErrT   string   `json:"errt,omitempty"`   // "iface": the error result is declared as an interface type that embeds error
 	ErrAt  int      `json:"errat,omitempty"`  // 0: error is the last result; k>0: error sits before result k-1 (clipped)
 	Var    string   `json:"var,omitempty"`    // variadic element type
+	// NilFn: the value passed is the nil value of the function type (a typed
+	// nil func): invalid input for Provide / Decorate / Invoke
+	NilFn bool `json:"nilfn,omitempty"`
 	Faults []int    `json:"faults,omitempty"` // per execution; beyond the list: ok
 	// EK / PK: what a failing execution fails with. EK 0: a plain sentinel
 	// error, 1: a sentinel error that wraps a dig.Error obtained elsewhere
@@ -204,6 +207,9 @@ type Opts struct {
 	CB       bool `json:"cb,omitempty"`
 	// AsSplit: the As list is given as two dig.As options (they accumulate)
 	AsSplit bool `json:"assplit,omitempty"`
+	// AsNil: the As arguments are typed nil pointers ((*I)(nil)) instead of
+	// new(I): equally valid
+	AsNil bool `json:"asnil,omitempty"`
 	// ExportFalse: dig.Export(false) is passed explicitly (same as no option)
 	ExportFalse bool `json:"exportfalse,omitempty"`
 	// CBPanic: the callback panics the first time it is called (callbacks are
@@ -338,6 +344,9 @@ func (o *Opts) Short() string {
 		} else {
 			parts = append(parts, "As("+strings.Join(o.As, ",")+")")
 		}
+		if o.AsNil {
+			parts = append(parts, "(typed nil As pointers)")
+		}
 	}
 	if len(o.AsRaw) > 0 {
 		parts = append(parts, "AsRaw("+strings.Join(o.AsRaw, ",")+")")
@@ -410,6 +419,9 @@ func (f *Fn) Short() string {
 	}
 	if f.Bank > 0 {
 		s += fmt.Sprintf("#bank%d", f.Bank-1)
+	}
+	if f.NilFn {
+		s += "=nil"
 	}
 	if f.Side != "" {
 		if f.SideFn != nil {
